@@ -368,8 +368,12 @@ class CircuitSimulator:
             `qutip.Qobj`: The current state of the simulator.
         """
         if not isinstance(self._state, Qobj) and self._state is not None:
-            self._state = self._state.reshape(self._state_mat_shape)
-            return Qobj(self._state, dims=self._state_dims)
+            # Do not store the reshaped array: the evolution continues
+            # with the tensor representation held in self._state.
+            return Qobj(
+                self._state.reshape(self._state_mat_shape),
+                dims=self._state_dims,
+            )
         else:
             return self._state
 
